@@ -297,8 +297,24 @@ def encResponse (m : SMsg) : Bytes :=
 
 def leavesSx (ls : List Leaf) : Sx := .list (ls.map leafSx)
 
-def apiNameOf (table : List (Int × String)) (api : Int) : String :=
-  ((table.find? fun r => r.1 == api).map (·.2)).getD (toString api)
+/-- the API keys of the Kafka protocol (0 … 49) and their names - written from the protocol,
+    not taken from the dissector -/
+def protocolApiNames : List String := [
+  "Produce", "Fetch", "ListOffsets", "Metadata", "LeaderAndIsr", "StopReplica", "UpdateMetadata", "ControlledShutdown",
+  "OffsetCommit", "OffsetFetch", "FindCoordinator", "JoinGroup", "Heartbeat", "LeaveGroup", "SyncGroup", "DescribeGroups",
+  "ListGroups", "SaslHandshake", "ApiVersions", "CreateTopics", "DeleteTopics", "DeleteRecords", "InitProducerId",
+  "OffsetForLeaderEpoch", "AddPartitionsToTxn", "AddOffsetsToTxn", "EndTxn", "WriteTxnMarkers", "TxnOffsetCommit",
+  "DescribeAcls", "CreateAcls", "DeleteAcls", "DescribeConfigs", "AlterConfigs", "AlterReplicaLogDirs", "DescribeLogDirs",
+  "SaslAuthenticate", "CreatePartitions", "CreateDelegationToken", "RenewDelegationToken", "ExpireDelegationToken",
+  "DescribeDelegationToken", "DeleteGroups", "ElectLeaders", "IncrementalAlterConfigs", "AlterPartitionReassignments",
+  "ListPartitionReassignments", "OffsetDelete", "DescribeClientQuotas", "AlterClientQuotas"]
+
+/-- the name an item must report for an API key: the protocol's name, the number for a key the
+    protocol (as of these 50 keys) does not define -/
+def specApiName (api : Int) : String :=
+  if 0 ≤ api then (protocolApiNames[api.toNat]?).getD (toString api) else toString api
+
+def apiNameOf (_table : List (Int × String)) (api : Int) : String := specApiName api
 
 /-- one item per answered request of a decoded API, in the order of the responses -/
 def expected (names : List (Int × String)) (cs : List CMsg) (ss : List SMsg) : Sx :=
